@@ -146,7 +146,8 @@ type c46case struct {
 	class    string // input class used in signatures
 	hdr      []byte // header (or, for header-less cases, the whole stream)
 	src, dst *net.TCPAddr
-	noPay    bool // truncated / header-less streams: no payload appended
+	noPay    bool  // truncated / header-less streams: no payload appended
+	marks    []int // large headers: the chosen cut points (instead of every offset)
 }
 
 type c46ip struct {
@@ -176,7 +177,7 @@ var (
 		c46v6("ffff:ffff:ffff:ffff:ffff:ffff:ffff:ffff", [8]uint16{0xffff, 0xffff, 0xffff, 0xffff, 0xffff, 0xffff, 0xffff, 0xffff}, false),
 		c46v6("2001:DB8:0:0:0:0:0:A", [8]uint16{0x2001, 0xdb8, 0, 0, 0, 0, 0, 0xa}, false), // upper case, no "::" (both allowed)
 		c46v6("fe80::1:2:3:4", [8]uint16{0xfe80, 0, 0, 0, 1, 2, 3, 4}, false),
-		c46v6("::ffff:102:304", [8]uint16{0, 0, 0, 0, 0, 0xffff, 0x0102, 0x0304}, true), // IPv4-mapped, written as hex groups
+		c46v6("::ffff:102:304", [8]uint16{0, 0, 0, 0, 0, 0xffff, 0x0102, 0x0304}, true),                          // IPv4-mapped, written as hex groups
 		c46v6("0000:0000:0000:0000:0000:ffff:0506:0708", [8]uint16{0, 0, 0, 0, 0, 0xffff, 0x0506, 0x0708}, true), // same kind, eight groups of 4 hex digits
 	}
 	c46Ports = []int{0, 1, 80, 65535}
@@ -309,6 +310,44 @@ func c46conformant(thorough bool, emit func(c c46case)) {
 		emit(c46case{kind: c46Real, class: "v2-LOCAL", hdr: c46v2hdr(0x20, 0x11, c46inet(c46V4s[0].ip, c46V4s[2].ip, 1, 65535), tlv)})
 		emit(c46case{kind: c46Real, class: "v2-LOCAL", hdr: c46v2hdr(0x20, 0x21, c46inet(c46V6s[0].ip, c46V6s[3].ip, 80, 0), tlv)})
 	}
+	// Large TLV areas straddling plausible scratch-buffer sizes (255/256/257, 300, 511/512/513,
+	// 1024/1025) and the largest header the default 2048-byte header limit admits. One address
+	// pair per family; delivery = whole, bytewise, and cuts at chosen points (see marks).
+	s4, d4, s6, d6 := c46V4s[0], c46V4s[3], c46V6s[0], c46V6s[5]
+	in4, in6 := c46inet(s4.ip, d4.ip, 1, 65535), c46inet(s6.ip, d6.ip, 65535, 1)
+	type fam struct {
+		kind     int
+		class    string
+		cmd, fam byte
+		addr     []byte
+		src, dst *net.TCPAddr
+	}
+	fams := []fam{
+		{c46Advertised, "v2-PROXY-TCP4", 0x21, 0x11, in4, c46tcp(s4.ip, 1), c46tcp(d4.ip, 65535)},
+		{c46Advertised, "v2-PROXY-TCP6", 0x21, 0x21, in6, c46tcp(s6.ip, 65535), c46tcp(d6.ip, 1)},
+		{c46Optional, "v2-PROXY-non-TCP-family", 0x21, 0x12, in4, c46tcp(s4.ip, 1), c46tcp(d4.ip, 65535)},
+		{c46Optional, "v2-PROXY-non-TCP-family", 0x21, 0x22, in6, c46tcp(s6.ip, 65535), c46tcp(d6.ip, 1)},
+		{c46Optional, "v2-PROXY-non-TCP-family", 0x21, 0x31, c46unix(), nil, nil},
+		{c46Optional, "v2-PROXY-UNSPEC", 0x21, 0x00, nil, nil, nil},
+		{c46Real, "v2-LOCAL", 0x20, 0x00, nil, nil, nil},
+		{c46Real, "v2-LOCAL", 0x20, 0x11, in4, nil, nil},
+		{c46Real, "v2-LOCAL", 0x20, 0x21, in6, nil, nil},
+	}
+	large := []int{255, 256, 257, 300, 512, 513, 1025, -1} // -1: fill the header up to exactly 2048 bytes
+	if thorough {
+		large = []int{254, 255, 256, 257, 258, 300, 511, 512, 513, 1023, 1024, 1025, 1500, -2, -1} // -2: 2047 bytes
+	}
+	for _, f := range fams {
+		for _, pad := range large {
+			if pad < 0 {
+				pad = 2049 + pad - 16 - len(f.addr)
+			}
+			h := c46v2hdr(f.cmd, f.fam, f.addr, c46noop(pad))
+			t0 := 16 + len(f.addr) // first TLV byte
+			marks := []int{13, 15, t0, t0 + 1, t0 + pad/2, t0 + 255, t0 + 256, t0 + 257, len(h) - 1, len(h), len(h) + 1}
+			emit(c46case{kind: f.kind, class: f.class, hdr: h, src: f.src, dst: f.dst, marks: marks})
+		}
+	}
 }
 
 // c46malformed enumerates single-field malformations of conformant headers. Every entry breaks
@@ -437,7 +476,10 @@ func c46headerless(maxLen int, emit func(c c46case)) {
 		if c46isProperSigPrefix(s) {
 			c.kind, c.class = c46Ambiguous, "sig-prefix-then-EOF"
 		} else if len(s) < 12 && (s[0] == 'P' || s[0] == '\r') {
-			c.class = "short-stream-sig-first-byte" // shorter than the longest signature, starts like one
+			// shorter than the longest signature, starts like one
+			if c.class = "short-stream-first-byte-P"; s[0] == '\r' {
+				c.class = "short-stream-first-byte-CR"
+			}
 		}
 		emit(c)
 	}
@@ -503,8 +545,26 @@ func c46payloads() []c46payload {
 }
 
 // c46cuts enumerates delivery splits (sorted cut offsets inside stream of length n).
-func c46cuts(n, hdrLen int, big, pairs bool, f func(cuts []int)) {
+func c46cuts(n, hdrLen int, big, pairs bool, marks []int, f func(cuts []int)) {
 	f(nil)
+	if marks != nil {
+		seen := map[int]bool{}
+		for _, k := range marks {
+			if k > 0 && k < n && !seen[k] {
+				seen[k] = true
+				f([]int{k})
+				if k < hdrLen && hdrLen < n {
+					f([]int{k, hdrLen}) // the payload as its own segment
+				}
+			}
+		}
+		var all []int
+		for k := 1; k <= hdrLen && k < n; k++ {
+			all = append(all, k)
+		}
+		f(all)
+		return
+	}
 	lim := n - 1
 	if big && lim > hdrLen+2 {
 		lim = hdrLen + 2
@@ -665,7 +725,7 @@ func TestVerifC46(t *testing.T) {
 	nMal := len(cases) - nConf
 	c46headerless(r.Pick(5, 6), collect)
 	nHl := len(cases) - nConf - nMal
-	r.Set("bounds", fmt.Sprintf("conformant headers=%d malformed headers=%d header-less streams=%d; payloads=5 (quick: big only unsplit+few); splits: whole, every single cut, bytewise header%s; app read buffer %v; address query before/after read",
+	r.Set("bounds", fmt.Sprintf("conformant headers=%d malformed headers=%d header-less streams=%d; payloads=5 (quick: big only unsplit+few); splits: whole, every single cut, bytewise header%s (v2 headers with TLV areas 255..1025 and up to the 2048-byte header limit: whole, bytewise, ~11 chosen cuts incl. inside the TLV area, each also with the payload as its own segment); app read buffer %v; address query before/after read",
 		nConf, nMal, nHl, map[bool]string{true: ", every pair of cuts (first in header)", false: ""}[thorough], map[bool]string{true: "{4096,1,7}", false: "{4096,1}"}[thorough]))
 
 	pays := c46payloads()
@@ -698,7 +758,7 @@ func TestVerifC46(t *testing.T) {
 			big := p.name == "big"
 			stream := append(append([]byte{}, c.hdr...), p.b...)
 			pairs := thorough && (p.name == "empty" || p.name == "hello")
-			c46cuts(len(stream), len(c.hdr), big, pairs, func(cuts []int) {
+			c46cuts(len(stream), len(c.hdr), big, pairs, c.marks, func(cuts []int) {
 				for _, bufsz := range bufszs {
 					if bufsz != 4096 && ((big && len(cuts) > 0) || len(cuts) == 2) {
 						continue // the app's buffer size does not interact with the parser; keep the products small
